@@ -4,6 +4,15 @@ go 1.24.2
 
 require github.com/octohelm/gengo v0.0.0
 
-require golang.org/x/text v0.24.0 // indirect
+require (
+	github.com/go-courier/logr v0.3.2 // indirect
+	github.com/google/go-cmp v0.7.0 // indirect
+	github.com/octohelm/x v0.0.0-20250409031213-9c254440c2b8 // indirect
+	golang.org/x/mod v0.24.0 // indirect
+	golang.org/x/sync v0.13.0 // indirect
+	golang.org/x/text v0.24.0 // indirect
+	golang.org/x/tools v0.32.0 // indirect
+	mvdan.cc/gofumpt v0.8.0 // indirect
+)
 
 replace github.com/octohelm/gengo => /repo
